@@ -146,11 +146,14 @@ Failing(k) == {i - 1 : i \in {j \in DOMAIN Examples(cur) :
                  LET ex == Examples(cur)[j] IN
                  IF IsRaw(ex) THEN FALSE
                  ELSE IF j <= Len(Tps(cur)) THEN ~den[DK(k, ExDoc(ex))] ELSE den[DK(k, ExDoc(ex))]}}
+(* an example without a marker is the document exactly as it is (the same document may stand in  *)
+(* both lists as identical values); the error text can only be checked to name the marked ones   *)
+Marked(ex) == ~("nomark" \in DOMAIN ex /\ ex.nomark)
 HasRaw == \E i \in DOMAIN Examples(cur) : IsRaw(Examples(cur)[i])
 ValidateOk(k, out, kind, named) ==
   IF HasRaw THEN out = "err"                       \* a malformed example is an error, not a panic
   ELSE IF Failing(k) = {} THEN out = "ok"
-  ELSE out = "err" /\ kind = "Validation" /\ named = Failing(k)
+  ELSE out = "err" /\ kind = "Validation" /\ named = {i \in Failing(k) : Marked(Examples(cur)[i + 1])}
 Validate(k, out, kind, named) ==
   /\ phase = "loaded" /\ k + 1 \in DOMAIN objs /\ ExamplesBound(k)
   /\ ValidateOk(k, out, kind, named)
@@ -167,6 +170,16 @@ LoadAlt(i, from, k, out) ==
   /\ "alts" \in DOMAIN cur /\ i + 1 \in DOMAIN cur.alts
   /\ out = "ok"
   /\ objs' = Append(objs, [sw |-> objs[from + 1].sw, st |-> "ok", src |-> i + 1])
+  /\ UNCHANGED <<cur, phase, den, prints>>
+
+(* rule.rs optimise(): `if self.optimised { return self }` - optimising happens ONCE.  A second   *)
+(* call on an optimised object, with whatever switches, returns the object unchanged: it prints   *)
+(* the same and stays in its class (its switch set is the one of the first call).                *)
+ReOptimise(from, k, out, same) ==
+  /\ phase = "loaded" /\ from + 1 \in DOMAIN objs /\ k = Len(objs)
+  /\ objs[from + 1].st = "ok" /\ objs[from + 1].sw # NoSw
+  /\ out = "ok" /\ same
+  /\ objs' = Append(objs, [sw |-> objs[from + 1].sw, st |-> "ok", src |-> objs[from + 1].src])
   /\ UNCHANGED <<cur, phase, den, prints>>
 
 Serialise(k, out) == /\ phase = "loaded" /\ k + 1 \in DOMAIN objs /\ out = "ok" /\ UNCHANGED rvars
